@@ -203,46 +203,54 @@ class Run(object):
         return r
 
 
-def run_plan(sv, kinds, nworkers, plan, rnd=None):
-    """plan: dict step index -> thread idx to switch to (a preemption).  Default policy: keep running the current thread
-    while it is enabled, else the enabled thread with the lowest id.  rnd: random schedule instead."""
+def run_plan(sv, kinds, nworkers, plan, rnd=None, policy="low"):
+    """plan: dict step index -> thread idx to switch to (a preemption); a negative idx fires the idle time-out of that
+    (blocked) thread.  Default policy: keep running the current thread while it is enabled, else the enabled thread with
+    the lowest ("low") or highest ("high": pool workers first) id.  rnd: random schedule instead."""
     R = Run(sv, kinds, nworkers)
     R.start()
     S = R.S
     cur = None
     step = 0
-    choices = []         # (step, current idx, [other enabled idx])
+    choices = []         # (step, current idx, [other options])
     end = "done"
     while True:
         live = S.live()
         en = [t for t in live if S.is_enabled(t)]
+        tm = [t for t in live if not S.is_enabled(t) and t.can_timeout]
         handlers_live = [t for t in live if t.idx < 100]
         if not en:
             end = "done" if not handlers_live else "deadlock"
             break
-        if not handlers_live and all(t.op[0] in ("qget",) and not S.is_enabled(t) for t in live):
-            break
+        tmo = False
         if rnd is not None:
-            t = cur if (cur in en and rnd.random() < 0.7) else rnd.choice(en)
+            if tm and rnd.random() < 0.08:
+                t, tmo = rnd.choice(tm), True
+            else:
+                t = cur if (cur in en and rnd.random() < 0.7) else rnd.choice(en)
         else:
             want = plan.get(step)
             t = None
-            if want is not None:
+            if want is not None and want < 0:
+                t = next((x for x in tm if x.idx == -want), None)
+                tmo = t is not None
+            elif want is not None:
                 t = next((x for x in en if x.idx == want), None)
             if t is None:
-                t = cur if cur in en else sorted(en, key=lambda x: x.idx)[0]
-        if t.op[0] in ("rd_version", "wr_version", "wr_other", "exec", "call", "ret", "qput", "qget"):
-            choices.append((step, t.idx, [x.idx for x in en if x is not t]))
-        cur = t
-        S.step(t)
+                t = cur if cur in en else sorted(en, key=lambda x: x.idx if policy == "low" else -x.idx)[0]
+        if not tmo and t.op[0] in ("rd_version", "wr_version", "wr_other", "exec", "call", "ret", "qput", "qget"):
+            choices.append((step, t.idx, [x.idx for x in en if x is not t] + [-x.idx for x in tm]))
+        if not tmo:
+            cur = t
+        S.step(t, tmo)
         step += 1
         if step > 3000:
             end = "truncated"
             break
-    return R.result(end, plan=sorted(plan.items()) if plan else []), choices
+    return R.result(end, plan=sorted(plan.items()) if plan else [], policy=policy), choices
 
 
-def explore(sv, kinds, nworkers, bound, maxruns, rnd):
+def explore(sv, kinds, nworkers, bound, maxruns, rnd, policy="low"):
     """All schedules with at most `bound` preemptions (breadth first, capped at maxruns), then random ones."""
     out, seen = [], set()
     frontier = [{}]
@@ -251,7 +259,7 @@ def explore(sv, kinds, nworkers, bound, maxruns, rnd):
         for plan in frontier:
             if len(out) >= maxruns:
                 break
-            tr, choices = run_plan(sv, kinds, nworkers, plan)
+            tr, choices = run_plan(sv, kinds, nworkers, plan, policy=policy)
             key = "|".join("%s:%s:%s" % (e["thr"], e["k"], e["obj"]) for e in tr["ev"] if e["k"] != "pool")
             if key in seen:
                 continue
@@ -294,6 +302,8 @@ if __name__ == "__main__":
     nparts = int(sys.argv[8]) if len(sys.argv) > 8 else 1
     for (sv, kinds, nw) in combos[:budget][part::nparts]:
         traces += explore(sv, kinds, nw, bound, maxruns, rnd)
+        if nw:
+            traces += explore(sv, kinds, 1 if rnd.random() < 0.5 else nw, bound, maxruns, rnd, policy="high")
         for _ in range(3):
             tr, _c = run_plan(sv, kinds, nw, {}, rnd=rnd)
             traces.append(tr)
